@@ -325,6 +325,40 @@ func runC19(c *ShardCtx) {
 			}
 		}
 	}
+	// large components: a ring of 7 (8) rules with chords - rules reached over two different paths
+	// (diamonds), several candidates for the leader - every set of at most two chords out of six
+	{
+		for _, n := range []int{7, 8} {
+			name := func(i int) string { return string(rune('A' + i%n)) }
+			chords := [][2]int{{0, 2}, {0, 3}, {1, 4}, {2, 5}, {4, 1}, {5, 2}}
+			for m := 0; m < 1<<len(chords); m++ {
+				cnt := 0
+				for k := range chords {
+					if m&(1<<k) != 0 {
+						cnt++
+					}
+				}
+				if cnt > 2 || (n == 8 && cnt != 2) {
+					continue
+				}
+				if c.Expired("large component family") {
+					return
+				}
+				var rules []*peg.Rule
+				for i := 0; i < n; i++ {
+					alts := []*peg.Expr{peg.Seq(peg.Ref(name(i+1)), lit("x"))}
+					for k, ch := range chords {
+						if m&(1<<k) != 0 && ch[0] == i {
+							alts = append(alts, peg.Seq(peg.Ref(name(ch[1])), lit("y")))
+						}
+					}
+					alts = append(alts, lit(string(rune('a'+i))))
+					rules = append(rules, &peg.Rule{Name: name(i), Expr: peg.Choice(alts...)})
+				}
+				one(&peg.Grammar{Rules: rules}, lrSets[:1])
+			}
+		}
+	}
 	// late-nullable choice family: R <- X / P D where X becomes nullable only through the
 	// fixpoint, P is a nullable prefix with a cached flag and D closes a cycle through R only
 	// behind P (4 rules, or 3 with an inline prefix); both alternative orders
